@@ -21,6 +21,9 @@ func isNondetSource(name string) bool {
 			return true
 		}
 	}
+	if strings.HasPrefix(name, "golang.org/x/exp/maps.Keys") || strings.HasPrefix(name, "golang.org/x/exp/maps.Values") || strings.HasPrefix(name, "maps.Keys") || strings.HasPrefix(name, "maps.Values") {
+		return true // key/value order of a map: indeterminate unless sorted before use (see sortedAfter)
+	}
 	return strings.HasPrefix(name, "math/rand.") || strings.HasPrefix(name, "(*math/rand.") || strings.HasPrefix(name, "crypto/rand.") ||
 		strings.HasPrefix(name, "math/rand/v2.") || name == "github.com/pborman/uuid.NewRandom" || strings.HasPrefix(name, "github.com/google/uuid.New")
 }
@@ -70,6 +73,9 @@ func flowsToSink(p *Prog, fn *ssa.Function, src ssa.Value) string {
 				name := calleeName(u.Common())
 				if isBenignSink(name) {
 					continue
+				}
+				if strings.HasPrefix(name, "sort.") || strings.HasPrefix(name, "slices.Sort") || strings.HasPrefix(name, "golang.org/x/exp/slices.Sort") {
+					return "" // sorted in place before any other use: the order no longer depends on the map
 				}
 				// pure value transformers: propagate the result
 				if c, ok := u.(*ssa.Call); ok {
